@@ -1,6 +1,7 @@
 package props
 
 import (
+	"os"
 	"math/bits"
 	"fmt"
 	"sort"
@@ -100,6 +101,10 @@ func (j *C02Job) Run(deadline time.Time) *runner.JobResult {
 		ref := *j.Sc
 		ref.snaps, ref.snap = nil, nil
 		ref.AtomicRequests, ref.KeyResponses, ref.Faults, ref.Crashes = true, true, 0, 0
+		// experiment switch, not part of the registered check (DESIGN 4/C02 limits): with sweeps atomic in the
+		// reference, a heartbeat landing between the lease sweep's read and write at the very instant
+		// the lease ends is reported as not linearizable on the unchanged tree
+		ref.AtomicSweeps = os.Getenv("VERIF_C02_ATOMIC_SWEEPS") != ""
 		ref.Clients = make([][]ReqF, nc)
 		for c := 0; c < nc; c++ {
 			if mask&(1<<c) != 0 {
